@@ -323,12 +323,14 @@ def c13_apply(op, spec, cfg, rnd):
             f = rnd.choice(cands)
             k, v = rnd.choice(f["params"])
             inner = _feat_inner(f)
-            other = rnd.choice(["same", "different"])
+            other = rnd.choice(["same", "different", "bare", "bare"])
             if v is None:
-                extra = k
+                extra = k if other != "bare" else "%s = \"x\"" % k
+            elif other == "bare":
+                extra = k                       # once with a value, once as a bare flag
             else:
                 extra = "%s = %s" % (k, E.rust_str_lit(v if other == "same" else v + "2"))
-            raw = "%s(%s, %s)" % (f["f"], inner, extra)
+            raw = "%s(%s, %s)" % (f["f"], inner, extra) if rnd.random() < 0.5 else "%s(%s, %s)" % (f["f"], extra, inner)
             return s, _replace_feature(cfg, f["f"], raw), "dup_param:" + k
         return None
     if op == "bad_mode":
